@@ -1821,3 +1821,31 @@ M.contract('contracts.C10_process:act_execute_step', props=BOTH,
                    or (result is [e[2] for e in trace if e[0] == FAILURE_CON + ':returned'][0]
                        and [e[2][0] for e in trace if e[0] == FAILURE_CON] == [ExecutionFailureStatus.HARD_ERROR]),
            }, raises_only=())
+
+
+@M.check('result-files')
+def _result_files(ctx):
+    """the files the ATC executor writes (sds.result.stdout_file / stderr_file / exitcode_file) are the files the
+    stdout / stderr / exit-code assertions read by default (finite: evaluated on the real path objects)"""
+    import pathlib as pl
+    from exactly_lib.tcfs.hds import HomeDs
+    from exactly_lib.tcfs.sds import SandboxDs
+    from exactly_lib.tcfs.tcds import TestCaseDs
+    from exactly_lib.tcfs.path_relativity import RelOptionType
+    from exactly_lib.type_val_deps.types.path import path_sdvs, path_ddvs
+    from exactly_lib.util.process_execution import process_output_files as pof
+    from exactly_lib.util.symbol_table import empty_symbol_table
+    from exactly_lib.impls.instructions.assert_.process_output.impl import out_err_file
+    sds = SandboxDs('/sds')
+    tcds = TestCaseDs(HomeDs(pl.Path('/hds/case'), pl.Path('/hds/act')), sds)
+    for f, written in ((pof.ProcOutputFile.STDOUT, sds.result.stdout_file), (pof.ProcOutputFile.STDERR, sds.result.stderr_file)):
+        constructor = out_err_file.Parser._default(f)
+        # the path SDV the default (no -from PROGRAM) assertion reads
+        path_sdv = [v for v in vars(constructor).values() if hasattr(v, 'resolve')][0]
+        read = path_sdv.resolve(empty_symbol_table()).value_of_any_dependency(tcds)
+        ctx.obligation('the %s assertion reads the file the ATC executor wrote its %s to' % (f.name.lower(), f.name.lower()),
+                       read == written, 'enumeration', detail={'read': str(read), 'written': str(written)})
+    from exactly_lib.impls.instructions.assert_.process_output.impl.exit_code import getter_from_atc as g
+    ctx.obligation('the exit-code assertion reads sds.result.exitcode_file (contract of _get_exit_code) and the ATC '
+                   'executor writes tcds.sds.result.exitcode_file (contract of _store_exit_code): same property',
+                   g._ExitCodeGetter(tcds)._sds is tcds.sds, 'enumeration')
